@@ -1,4 +1,5 @@
 import MidoModel.Codec
+import MidoProofs.Lemmas.PyLor
 /-! Bit-level helper lemmas (core Lean only). -/
 namespace Mido
 
@@ -30,14 +31,5 @@ theorem chan_or (b : Nat) (hb : b ∈ [0x80, 0x90, 0xa0, 0xb0, 0xc0, 0xd0, 0xe0]
     ∀ ch, ch < 16 → (b ||| ch = b + ch ∧ (b ||| ch) &&& 0x0f = ch) := by
   simp only [List.mem_cons, List.not_mem_nil, or_false] at hb
   rcases hb with h | h | h | h | h | h | h <;> subst h <;> decide
-
-/-- Python's `d0 | ((d1 << 7) - 8192)` on the whole data-byte domain. -/
-theorem pitch_lor_table : ∀ d0 : Fin 128, ∀ d1 : Fin 128,
-    pyLor (d0.val : Int) ((((d1.val : Nat) : Int) <<< 7) + (-8192))
-      = (d0.val : Int) + 128 * (d1.val : Int) - 8192 := by decide +kernel
-
-theorem pitch_lor (d0 d1 : Nat) (h0 : d0 < 128) (h1 : d1 < 128) :
-    pyLor (d0 : Int) (((d1 : Int) <<< 7) + (-8192)) = (d0 : Int) + 128 * (d1 : Int) - 8192 :=
-  pitch_lor_table ⟨d0, h0⟩ ⟨d1, h1⟩
 
 end Mido
